@@ -11,6 +11,41 @@ CHECKS = {
             "Generated-input search, no proof: random namespace histories (create/open/list/remove/rename over paths of depth <=3, up to 4 live file and 4 live directory handles) on generated volume configurations (FAT12/16/32 x sector 512..4096 x cluster 1..128 sectors x 1-2 FATs x small/large fixed roots x tiny free space). Every call's outcome must lie in the model's outcome set, and after every call the model tree must equal both the library's own recursive listing and an independent decode of the raw bytes.",
             "trusted: the reference model (outcome sets of DESIGN appendix B), refdec (independent FAT decoder), proptest; preconditions of DESIGN 4.3 (no rename/remove of objects with live handles, no '.'/'..' components); rename onto itself is a no-op",
             "DESIGN.md 5 C01"),
+    "C02": ("exploration",
+            "model-based property testing: proptest-generated seek/read/write/truncate/flush histories on 1-4 open files against a Vec<u8>+cursor model, boundary-biased offsets and lengths, read-back through fresh handles and an independent decode of the raw image",
+            "Generated-input search: random file-I/O histories with offsets/lengths drawn from boundary sets around cluster edges, file size and 2^32, on cluster sizes 512 B..64 KiB and all FAT widths; every return value and every byte read must match the model; contents re-read through fresh handles, the library's listing and refdec at the end.",
+            "trusted: the byte-array model, refdec, proptest; one handle per file at a time (documented precondition); files below a few clusters here, the 4 GiB end in C20",
+            "DESIGN.md 5 C02"),
+    "C03": ("exploration",
+            "invariant checking over generated histories: refdec::fsck (independent FAT structural checker) on the raw image after every single call of proptest-generated namespace + file-I/O histories, including user errors and out-of-space on tiny volumes",
+            "Generated-input search: the structural invariants of the property are evaluated on the raw bytes after every call (not only at the end) of random histories weighted towards tiny volumes (3..40 free clusters, 16-entry roots) and failing calls.",
+            "trusted: refdec's transcription of the FAT specification (cross-checked against the library's formatter and the Linux-made images), proptest; file handles are flushed at the end of each mutating file call so deferred metadata is not mistaken for corruption",
+            "DESIGN.md 5 C03"),
+    "C04": ("exploration",
+            "differential testing over generated histories: at generated checkpoints the session's own recursive listing is compared with (a) a second FileSystem::new on a copy of the bytes and (b) refdec's independent decode; extents read straight from the device",
+            "Generated-input search with a differential oracle that does not depend on the reference model: histories with long-lived handles and unflushed writes, checkpoints at random positions, before/after unmount and at the end.",
+            "trusted: refdec, the second mount being independent of in-memory session state, proptest",
+            "DESIGN.md 5 C04"),
+    "C05": ("exploration",
+            "invariant checking over generated histories: stats() vs. zero entries counted by refdec in the raw FAT after every call / at random points, FS-info decoded after every unmount, independent space predictor for every out-of-space error, scripted fill/delete cycles",
+            "Generated-input search: allocation-heavy random histories on volumes with 3..40 free clusters of every width (FAT32 with known / unknown / dirty-ignored FS-info count) plus scripted fill-to-full/delete-all cycles (6 quick, 200 thorough).",
+            "trusted: refdec's FAT decoding and slot-run predictor, proptest; a count stored on a volume that was already dirty at mount and never recomputed by stats() is nobody's claim",
+            "DESIGN.md 5 C05"),
+    "C10": ("exploration",
+            "invariant checking over generated histories on imggen-built volumes: byte comparison of all FAT copies, reserved entries, padding entries and FAT32 high nibbles against the mount-time image after every call",
+            "Generated-input search: random allocating/freeing histories on volumes with 1/2/3 FAT copies, mirroring on or off with each active copy (garbage in inactive ones), non-zero FAT32 reserved nibbles, garbage padding entries.",
+            "trusted: refdec geometry, imggen (independent volume builder, cross-checked by mounting with the library in selftest), proptest",
+            "DESIGN.md 5 C10"),
+    "C11": ("exploration",
+            "invariant checking over generated histories: every device write (offset,length) logged by the instrumented device is classified against refdec's region/ownership map before and after the call; canaries after the declared end and in unused reserved sectors",
+            "Generated-input search: random histories on volumes embedded in a larger device with canary-filled reserved sectors; each write must fall in a region the current call may modify.",
+            "trusted: refdec's ownership map, the device log, proptest; a dropped/replaced handle may write back its own entry",
+            "DESIGN.md 5 C11"),
+    "C12": ("exploration",
+            "invariant checking over generated histories with every call boundary as abandonment point: independent structural diff against the mount-time image vs. on-disk status byte; copy-and-mount of the abandoned image; status byte after unmount()/drop",
+            "Generated-input search: short random histories over every mutating call kind with initial status byte 0..3 on FAT12/16 (0x25) and FAT32 (0x41).",
+            "trusted: refdec-based structural diff (timestamps, status byte, FS-info excluded), proptest",
+            "DESIGN.md 5 C12"),
 }
 
 PENDING_REASON = "check under construction in this session; not claimed yet (technique applies, see DESIGN.md)"
